@@ -281,6 +281,8 @@ struct iterator_add_deref<memory_based_step_iterator<Iterator>,Deref> {
 
 template <typename I> typename dynamic_x_step_type<I>::type make_step_iterator(const I& it, std::ptrdiff_t step);
 
+template <typename Iterator, typename DFn> class dereference_iterator_adaptor; // pixel_iterator_adaptor.hpp
+
 namespace detail {
 
 // if the iterator is a plain base iterator (non-adaptor), wraps it in memory_based_step_iterator
@@ -297,6 +299,19 @@ auto make_step_iterator_impl(I const& it, std::ptrdiff_t step, std::true_type)
     -> typename dynamic_x_step_type<I>::type
 {
     return make_step_iterator(it.base(), step);
+}
+
+// If the iterator is a dereference adaptor, put the step in its base and keep its function object
+// (a default-constructed one is not the same function when it has state, e.g. the channel index of nth_channel_view)
+template <typename BaseIt, typename DFn>
+auto make_step_iterator_impl(
+    dereference_iterator_adaptor<BaseIt, DFn> const& it,
+    std::ptrdiff_t step,
+    std::true_type)
+    -> typename dynamic_x_step_type<dereference_iterator_adaptor<BaseIt, DFn>>::type
+{
+    using result_t = typename dynamic_x_step_type<dereference_iterator_adaptor<BaseIt, DFn>>::type;
+    return result_t(make_step_iterator(it.base(), step), it.deref_fn());
 }
 
 // If the iterator is memory_based_step_iterator, change the step
